@@ -138,6 +138,20 @@ def enc_for(case):
     return enc, ne
 
 
+def split_requirements(case):
+    """the case has a requirer (a distribution or an input file) with several requirement entries on one project that
+    stand under different markers - the shape the recorded finding D3 needs (one edge label per requirer and project)"""
+    groups = [rs for vs in case["universe"].values() for rs in vs.values()] + list(case["inputs"])
+    for rs in groups:
+        seen = {}
+        for t in rs:
+            q = GL.P(t)
+            seen.setdefault(GL.norm(q.name), []).append(str(q.marker))
+        if any(len(set(ms)) > 1 for ms in seen.values()):
+            return True
+    return False
+
+
 @contextlib.contextmanager
 def observed_region():
     """the region classification of `Run.region` for compiles made by other means (the command line in-process) inside
